@@ -129,8 +129,10 @@ class SSHChannel(Generic[AnyStr], SSHPacketHandler):
         self._send_paused = False
         self._send_buf: List[Tuple[bytearray, DataType]] = []
         self._send_buf_len = 0
+        self._send_eof_on_close = False
 
         self._recv_state = 'closed'
+        self._recv_eof_on_close = False
         self._init_recv_window = window
         self._recv_window = window
         self._recv_pktsize = max_pktsize
@@ -346,6 +348,12 @@ class SSHChannel(Generic[AnyStr], SSHPacketHandler):
                 self.send_packet(MSG_CHANNEL_EOF)
                 self._send_state = 'eof'
             elif self._send_state == 'close_pending':
+                # An EOF which was still waiting for data to be sent when
+                # close() was called must reach the peer ahead of the close
+                if self._send_eof_on_close:
+                    self._send_eof_on_close = False
+                    self.send_packet(MSG_CHANNEL_EOF)
+
                 self._close_send()
 
     def _flush_recv_buf(self, exc: Optional[Exception] = None) -> None:
@@ -373,6 +381,14 @@ class SSHChannel(Generic[AnyStr], SSHPacketHandler):
                 if (not self._session.eof_received() and
                         self._send_state == 'open'):
                     self.write_eof()
+            elif self._recv_state == 'close_pending' and \
+                    self._recv_eof_on_close:
+                # The peer's EOF was still waiting for buffered data to be
+                # delivered when its close arrived. Report it before closing.
+                self._recv_eof_on_close = False
+
+                if self._session is not None:
+                    self._session.eof_received()
 
         if not self._recv_buf and self._recv_state == 'close_pending':
             self._recv_state = 'closed'
@@ -688,6 +704,7 @@ class SSHChannel(Generic[AnyStr], SSHPacketHandler):
 
         self._close_send()
 
+        self._recv_eof_on_close = self._recv_state == 'eof_pending'
         self._recv_state = 'close_pending'
         self._flush_recv_buf()
 
@@ -839,6 +856,7 @@ class SSHChannel(Generic[AnyStr], SSHPacketHandler):
 
         if self._send_state not in {'close_pending', 'closed'}:
             # Send a close only after sending unsent data
+            self._send_eof_on_close = self._send_state == 'eof_pending'
             self._send_state = 'close_pending'
             self._flush_send_buf()
 
